@@ -840,7 +840,11 @@ func (s *SecureChannel) handleOpenSecureChannelResponse(resp *ua.OpenSecureChann
 	instance.state = channelActive
 	instance.secureChannelID = resp.SecurityToken.ChannelID
 	instance.securityTokenID = resp.SecurityToken.TokenID
-	instance.createdAt = resp.SecurityToken.CreatedAt
+	// The lifetime is counted from the moment the token was received: the
+	// clocks of client and server need not be synchronized, and with the
+	// CreatedAt of a server whose clock is ahead (behind) the token would be
+	// accepted far too long (would be dropped as expired right away).
+	instance.createdAt = time.Now()
 	instance.revisedLifetime = time.Millisecond * time.Duration(resp.SecurityToken.RevisedLifetime)
 
 	// allow the client to specify a lifetime that is smaller
